@@ -23,6 +23,12 @@ func suiteVersion(c *ctx) {
 					for _, dirty := range []bool{false, true} {
 						cfg := runCfg{dialect: d, lower: lower}
 						s := cfg.newSqlize(sqlize.WithMigrationTable(tb))
+						if id%2 == 1 {
+							// another instance with the other keyword case and another dialect is constructed before the calls
+							// (seeded change C12-f: the bookkeeping statement rendered with the templates of the last constructor)
+							other := map[string]string{"mysql": "postgres", "postgres": "sqlite3", "sqlite3": "mysql"}[d]
+							_ = runCfg{dialect: other, lower: !lower}.newSqlize(sqlize.WithMigrationTable("decoy"))
+						}
 						up := guard(func() string { return s.StringUpWithVersion(v, dirty) })
 						down := guard(func() string { return s.StringDownWithVersion(v) })
 						c.emit(fmt.Sprintf("v%d", id), "version", cfg.sexp(), q(tb), fmt.Sprint(v), b2s(dirty), q(""), q(""), q(up), q(down))
